@@ -181,6 +181,8 @@ def dispatch (fn : String) (j : Json) : P Json := do
   | "rowsByCondition" => rowsByConditionFn j
   | "evalCond" => evalCondFn j
   | "decodeWire" => decodeWireFn j
+  | "encodeWire" => encodeWireFn j
+  | "recodeWire" => recodeWireFn j
   | _ => throw s!"unknown fn {fn}"
 
 def handle (line : String) : String :=
